@@ -46,6 +46,7 @@ INT, BOOL, STR, NONE = ("int",), ("bool",), ("str",), ("none",)
 FEATURE, RELATION, FMODEL, CTC = ("Feature",), ("Relation",), ("FeatureModel",), ("Constraint",)
 ASTT, NODE, NDATA, ASTOP, FTYPE, CARD = ("AST",), ("Node",), ("ndata",), ("astop",), ("ftype",), ("Cardinality",)
 UNKNOWN = ("?",)
+ANY, ATTRIBUTE = ("any",), ("Attribute",)      # Any / Dict[str, Any] is a JSON-like value (aval)
 
 
 def Opt(t):
@@ -68,7 +69,7 @@ def coq_ty(t):
     k = t[0]
     simple = {"int": "Z", "bool": "bool", "str": "string", "Feature": "lfeat", "Relation": "lrel",
               "FeatureModel": "fm", "Constraint": "ctc", "AST": "node", "Node": "node", "ndata": "ndata",
-              "astop": "astop", "ftype": "ftype"}
+              "astop": "astop", "ftype": "ftype", "any": "aval", "Attribute": "attr"}
     if k in simple:
         return simple[k]
     if k == "none":
@@ -157,6 +158,11 @@ ATTRS = {
     ("Node", "left"): ("(n_left {0})", Opt(NODE)),
     ("Node", "right"): ("(n_right {0})", Opt(NODE)),
     ("Node", "data"): ("(n_data {0})", NDATA),
+    ("Feature", "is_abstract"): ("(f_abstract (info (fst {0})))", ANY),
+    ("Feature", "attributes"): ("(f_attrs (info (fst {0})))", List(ATTRIBUTE)),
+    ("Attribute", "name"): ("(a_name {0})", STR),
+    ("Attribute", "default_value"): ("(a_default {0})", ANY),
+    ("Attribute", "null_value"): ("(a_null {0})", ANY),
 }
 # methods of the flamapy.core objects (hand model Model/Ast.v, as everywhere in this development)
 EXT_METHODS = {
@@ -166,6 +172,7 @@ EXT_METHODS = {
     ("Node", "is_unary_op"): ("(is_unary_op {0})", BOOL),
     ("Node", "is_binary_op"): ("(is_binary_op {0})", BOOL),
     ("AST", "get_operators"): ("(get_operators {0})", List(ASTOP)),
+    ("AST", "pretty_str"): ("(pretty_str {0})", STR, True),
 }
 
 
@@ -173,6 +180,14 @@ EXT_METHODS = {
 OVERRIDE_RET = {("Constraint", "get_features"): List(NDATA),
                 (None, "left_right_features_from_simple_constraint"): Tup([NDATA, NDATA])}
 OVERRIDE_VAR = {("Constraint", "get_features", "features"): Dict(NDATA, NONE)}
+
+
+# functions of flamapy.core.models.ast (hand model Model/Ast.v, as everywhere in this development)
+EXT_FUNCS = {
+    "simplify_formula": ([ASTT], "(simplify_fuel (default_fuel {0}) {0})", ASTT),
+    "propagate_negation": ([NODE], "(propagate_negation {0} false)", ASTT),
+    "to_cnf": ([ASTT], "(to_cnf_fuel (default_fuel {0}) {0})", ASTT),
+}
 
 
 class FuncInfo:
@@ -197,14 +212,17 @@ def parse_ann(a, ctx):
         return NONE
     if isinstance(a, ast.Name):
         m = {"int": INT, "bool": BOOL, "str": STR, "float": INT, "Feature": FEATURE, "Relation": RELATION,
-             "FeatureModel": FMODEL, "Constraint": CTC, "AST": ASTT, "Node": NODE}
+             "FeatureModel": FMODEL, "Constraint": CTC, "AST": ASTT, "Node": NODE, "Any": ANY,
+             "Attribute": ATTRIBUTE}
         if a.id in m:
             return m[a.id]
         fail(a, "unknown annotation")
     if isinstance(a, ast.Subscript) and isinstance(a.value, ast.Name):
         if a.value.id == "Optional":
             return Opt(parse_ann(a.slice, ctx))
-        if a.value.id == "list":
+        if a.value.id in ("dict", "Dict") and ast.unparse(a.slice) in ("(str, Any)", "str, Any"):
+            return ANY
+        if a.value.id in ("list", "List"):
             return List(parse_ann(a.slice, ctx))
         if a.value.id == "tuple":
             return Tup([parse_ann(x, ctx) for x in a.slice.elts])
@@ -242,6 +260,8 @@ class Translator:
         self.cur = None
         self.vartypes = {}
         self.probe = False
+        self.enums = {}
+        self.fresh_returning = set()
 
     def fresh(self, base="v"):
         self.counter += 1
@@ -294,6 +314,20 @@ class Translator:
                 return self.lift([v], lambda c: Val(f"(map (fun x => Some x) {c[0]})", ty))
         if v.ty == BOOL and ty == INT:
             return self.lift([v], lambda c: Val(f"(if {c[0]} then 1%Z else 0%Z)", INT))
+        if ty == ANY:
+            wrap = {STR: "(VStr {0})", INT: "(VInt {0})", BOOL: "(VBool {0})", NDATA: "(any_of_data {0})"}
+            if v.ty in wrap:
+                return self.lift([v], lambda c: Val(wrap[v.ty].format(c[0]), ANY))
+            if v.ty == NONE:
+                return Val("VNone", ANY, v.eff)
+            if v.ty[0] == "list":
+                if v.ty[1] in (ANY, UNKNOWN):
+                    return self.lift([v], lambda c: Val(f"(VList {c[0]})", ANY))
+                x = self.fresh("a")
+                inner = self.coerce(Val(x, v.ty[1]), ANY, ctx)
+                if inner.eff:
+                    fail(ctx, "effectful conversion to a JSON value")
+                return self.lift([v], lambda c: Val(f"(VList (map (fun {x} => {inner.code}) {c[0]}))", ANY))
         fail(ctx, f"cannot use a value of type {v.ty} as {ty}")
 
     def deref(self, v):
@@ -356,12 +390,42 @@ class Translator:
             if e.attr in FTYPE_MEMBERS:
                 return Val(FTYPE_MEMBERS[e.attr], FTYPE)
             fail(e, "unknown FeatureType member")
+        if (e.attr == "value" and isinstance(e.value, ast.Attribute) and isinstance(e.value.value, ast.Name)
+                and e.value.value.id in self.enums):
+            members = self.enums[e.value.value.id]
+            if e.value.attr not in members:
+                fail(e, "unknown enum member")
+            return Val(coq_str(members[e.value.attr]), STR)
         o = self.obj(self.tr(e.value, env))
+        if o.ty == NDATA and e.attr == "value":
+            # the value of an ASTOperation member; any other data has no such attribute
+            self.cur.intrinsic_eff = True
+            return self.lift([o], lambda c: Val(
+                f"(match {c[0]} with DOp o => Ok (astop_value o) | _ => Err AttributeError end)", STR, True))
         k = (o.ty[0], e.attr)
         if k not in ATTRS:
             fail(e, f"unknown attribute of {o.ty}")
         tmpl, ty = ATTRS[k]
         return self.lift([o], lambda c: Val(tmpl.format(c[0]), ty))
+
+    def e_JoinedStr(self, e, env):
+        parts = []
+        for p in e.values:
+            if isinstance(p, ast.Constant) and isinstance(p.value, str):
+                parts.append(Val(coq_str(p.value), STR))
+            elif isinstance(p, ast.FormattedValue) and p.conversion == -1 and p.format_spec is None:
+                v = self.tr(p.value, env)
+                if v.ty == STR:
+                    parts.append(v)
+                elif v.ty == INT:
+                    parts.append(self.lift([v], lambda c: Val(f"(z_to_string {c[0]})", STR)))
+                else:
+                    fail(e, f"f-string over {v.ty}")
+            else:
+                fail(e, "unsupported f-string part")
+        if not parts:
+            return Val('""', STR)
+        return self.lift(parts, lambda c: Val("(" + " ++ ".join(c) + ")%string", STR))
 
     def e_Tuple(self, e, env):
         vs = [self.tr(x, env) for x in e.elts]
@@ -487,6 +551,8 @@ class Translator:
             return v
         if v.ty[0] == "list" or v.ty[0] == "dict":
             return self.lift([v], lambda c: Val(f"(negb (py_is_nil {c[0]}))", BOOL))
+        if v.ty == ANY:
+            return self.lift([v], lambda c: Val(f"(aval_truthy {c[0]})", BOOL))
         if v.ty == INT:
             return self.lift([v], lambda c: Val(f"(negb (Z.eqb {c[0]} 0%Z))", BOOL))
         fail(ctx, f"truth value of {v.ty}")
@@ -519,6 +585,9 @@ class Translator:
             some_fn, none_fn = (then_fn, else_fn) if isinstance(cond.ops[0], ast.IsNot) else (else_fn, then_fn)
             if x.ty == NONE:
                 return none_fn(env)
+            if x.ty == ANY:
+                a, b = some_fn(env), none_fn(env)
+                return self.merge_branches(x, lambda c: (f"match {c} with VNone => ", " | _ => ", " end"), b, a, ctx, stmt)
             if x.ty[0] != "opt":
                 return some_fn(env)         # annotated as never None
             v = self.fresh("s")
@@ -643,8 +712,11 @@ class Translator:
             if f is not None:
                 return self.call_func(f, [recv] + [self.tr(a, env) for a in e.args], e)
             if k in EXT_METHODS and not e.args:
-                tmpl, ty = EXT_METHODS[k]
-                return self.lift([recv], lambda c: Val(tmpl.format(c[0]), ty))
+                tmpl, ty = EXT_METHODS[k][:2]
+                eff = len(EXT_METHODS[k]) > 2
+                if eff:
+                    self.cur.intrinsic_eff = True
+                return self.lift([recv], lambda c: Val(tmpl.format(c[0]), ty, eff))
             if recv.ty == NDATA and fn.attr == "startswith" and len(e.args) == 1:
                 a = e.args[0]
                 if isinstance(a, ast.Constant) and isinstance(a.value, str) and len(a.value) == 1:
@@ -670,6 +742,15 @@ class Translator:
         f = self.lookup((None, name))
         if f is not None:
             return self.call_func(f, [self.tr(a, env) for a in args], e)
+        if name in EXT_FUNCS and len(args) == len(EXT_FUNCS[name][0]):
+            ptys, tmpl, rty = EXT_FUNCS[name]
+            vs = [self.coerce(self.tr(a, env), t, e) for a, t in zip(args, ptys)]
+            self.cur.intrinsic_eff = True
+            return self.lift(vs, lambda c: Val(tmpl.format(*c), rty, True))
+        if name == "Constraint" and len(args) == 2:
+            n = self.coerce(self.tr(args[0], env), STR, e)
+            a = self.coerce(self.tr(args[1], env), NODE, e)
+            return self.lift([n, a], lambda c: Val(f"{{| c_name := {c[0]}; c_ast := {c[1]} |}}", CTC))
         if name == "len" and len(args) == 1:
             v = self.obj(self.tr(args[0], env))
             if v.ty[0] not in ("list", "dict"):
@@ -875,6 +956,11 @@ class Translator:
         if (isinstance(t, ast.Subscript) and isinstance(t.value, ast.Name) and t.value.id in self.local_containers
                 and t.value.id in env.vars):
             d = self.tr(t.value, env)
+            if d.ty == ANY:
+                kk = self.coerce(self.tr(t.slice, env), STR, s)
+                vv = self.coerce(self.tr(s.value, env), ANY, s)
+                new = self.lift([kk, vv], lambda c: Val(f"(aval_set {d.code} {c[0]} {c[1]})", ANY))
+                return self.assign(t.value.id, new, rest, env, k, s)
             if d.ty[0] != "dict":
                 fail(s, "item assignment on a non-dict")
             kk = self.coerce(self.tr(t.slice, env), d.ty[1], s)
@@ -900,6 +986,8 @@ class Translator:
     def tr_value(self, e, env, name):
         if isinstance(e, ast.Dict) and not e.keys:
             t = self.vartypes.get(name)
+            if t == ANY:
+                return Val("(VMap [])", ANY)
             if t is None or t[0] != "dict":
                 fail(e, "an empty dict needs an annotation")
             return Val("[]", t)
@@ -1066,7 +1154,9 @@ class Translator:
                 for t in tg:
                     if isinstance(t, ast.Name):
                         fresh = isinstance(val, (ast.List, ast.ListComp, ast.Dict)) or (
-                            isinstance(val, ast.BinOp) and isinstance(val.op, ast.Add))
+                            isinstance(val, ast.BinOp) and isinstance(val.op, ast.Add)) or (
+                            isinstance(val, ast.Call) and isinstance(val.func, ast.Name)
+                            and val.func.id in self.fresh_returning)
                         (created if fresh else other).add(t.id)
         return {n for n in created if n not in other and n not in params}
 
@@ -1109,10 +1199,16 @@ class NeedEff(Exception):
 def collect(unit):
     """parse the unit's files and build the FuncInfo table"""
     funcs = {}
+    enums = {}
     for path, cls_methods, functions in unit["files"]:
         full = os.path.join(REPO_PKG, path)
         tree = ast.parse(open(full, encoding="utf-8").read(), full)
         classes = {n.name: n for n in tree.body if isinstance(n, ast.ClassDef)}
+        for cn, cnode in classes.items():
+            if any(isinstance(b, ast.Name) and b.id == "Enum" for b in cnode.bases):
+                enums[cn] = {t.id: st.value.value for st in cnode.body if isinstance(st, ast.Assign)
+                             and isinstance(st.value, ast.Constant) and isinstance(st.value.value, str)
+                             for t in st.targets if isinstance(t, ast.Name)}
         topfuncs = {n.name: n for n in tree.body if isinstance(n, ast.FunctionDef)}
         for cls, methods in cls_methods.items():
             if cls not in classes:
@@ -1141,12 +1237,25 @@ def collect(unit):
             else:
                 f.params.append((arg.arg, parse_ann(arg.annotation, arg), d))
         f.ret = OVERRIDE_RET.get(key) or parse_ann(f.node.returns, f.node)
-    return funcs
+    return funcs, enums
 
 
 def translate_unit(unit, externals):
-    funcs = collect(unit)
+    funcs, enums = collect(unit)
+    fresh = set()
     tr = Translator(unit["name"], funcs, externals)
+    tr.enums = enums
+    # top-level functions that return a list they created themselves (so the caller may mutate it)
+    for (cls, name), f in funcs.items():
+        if cls is None:
+            tr.cur = f
+            tr.fresh_returning = set()
+            loc = tr.find_local_containers(f.node)
+            rets = [n for n in ast.walk(f.node) if isinstance(n, ast.Return)]
+            if rets and all(isinstance(r.value, (ast.List, ast.ListComp)) or (
+                    isinstance(r.value, ast.Name) and r.value.id in loc) for r in rets):
+                fresh.add(name)
+    tr.fresh_returning = fresh
     # pass 1: probe (everything in the monad) to learn call edges and intrinsic effects
     for f in funcs.values():
         tr.translate_function(f, True)
@@ -1227,20 +1336,22 @@ UNITS = [
     {"name": "fm", "imports": "",
      "files": [("models/feature_model.py", {
          "Relation": ["is_mandatory", "is_optional", "is_or", "is_alternative", "is_mutex", "is_cardinal", "is_group"],
-         "Feature": ["__eq__", "is_empty", "get_relations", "get_parent", "get_children", "is_root", "is_mandatory",
+         "Feature": ["__eq__", "is_empty", "get_attributes", "get_relations", "get_parent", "get_children", "is_root", "is_mandatory",
                      "is_optional", "is_or_group", "is_alternative_group", "is_mutex_group", "is_cardinality_group",
                      "is_group", "is_multiple_group_decomposition", "is_leaf", "is_boolean", "is_numerical",
                      "is_string", "is_multifeature"],
          "Constraint": ["get_features", "is_logical_constraint", "is_arithmetic_constraint",
                         "is_aggregation_constraint", "is_single_feature_constraint", "is_simple_constraint",
-                        "is_complex_constraint", "is_requires_constraint", "is_excludes_constraint"],
+                        "is_complex_constraint", "is_requires_constraint", "is_excludes_constraint",
+                        "is_pseudocomplex_constraint", "is_strictcomplex_constraint"],
          "FeatureModel": ["get_relations", "get_features", "get_boolean_features", "get_numerical_features",
                           "get_string_features", "get_constraints", "get_mandatory_features",
                           "get_optional_features", "get_alternative_group_features", "get_or_group_features",
                           "get_feature_by_name", "get_logical_constraints", "get_arithmetic_constraints",
                           "get_aggregations_constraints", "get_complex_constraints", "get_simple_constraints",
-                          "get_excludes_constraints", "get_requires_constraints"],
-     }, ["left_right_features_from_simple_constraint", "split_formula"])]},
+                          "get_excludes_constraints", "get_requires_constraints",
+                          "get_pseudocomplex_constraints", "get_strictcomplex_constraints"],
+     }, ["left_right_features_from_simple_constraint", "split_formula", "split_constraint", "get_new_ctc_name"])]},
     {"name": "ops", "imports": " Gen.Src_fm",
      "files": [
          ("operations/fm_estimated_configurations_number.py", {}, ["count_configurations", "count_configurations_rec"]),
@@ -1252,6 +1363,9 @@ UNITS = [
          ("operations/fm_average_branching_factor.py", {}, ["average_branching_factor"]),
          ("operations/fm_variation_points.py", {}, ["variation_points"]),
      ]},
+    {"name": "json", "imports": " Gen.Src_fm",
+     "files": [("transformations/json_writer.py", {},
+                ["to_json", "get_tree_info", "get_attributes_info", "get_constraints_info", "get_ctc_info"])]},
 ]
 
 
